@@ -161,9 +161,18 @@ def setup_profile():
     curid = ",".join([str(steps.index(cc) + 1) for cc in cur])
     for ii, st in enumerate(steps):
         print("  {}: {}".format(ii+1, st))
-    stp = input("(currently '{}'): ".format(curid))
-    if stp:
-        pf["preprocessing"] = [steps[int(ii) - 1] for ii in stp.split(",")]
+    while True:
+        stp = input("(currently '{}'): ".format(curid))
+        if stp:
+            new = [steps[int(ii) - 1] for ii in stp.split(",")]
+            try:
+                preproc.check_order(new)
+            except ValueError as exc:
+                # the batch fit would refuse this list
+                print("Invalid preprocessing: {}".format(exc))
+                continue
+            pf["preprocessing"] = new
+        break
 
     print("\nSelect model number:")
     models = sorted(model.models_available.keys())
@@ -204,23 +213,23 @@ def setup_profile():
             break
         pf.set_fit_params(params)
 
-    print("\nSelect range type (absolute or relative):")
+    print("\nSelect range type (absolute or relative cp):")
     while True:
         rt = input("(currently '{}'): ".format(pf["range_type"]))
         if rt:
-            if rt not in ["absolute", "relative"]:
-                print("Please choose 'absolute' or 'relative'.")
+            if rt not in ["absolute", "relative cp"]:
+                print("Please choose 'absolute' or 'relative cp'.")
                 continue
             pf["range_type"] = rt
         break
 
     print("\nSelect fitting interval:")
-    ival = np.array(pf["range_x"]) * 1e6
+    ival = np.array(pf["range_x"], dtype=float) * 1e6
     left = input("left [µm] (currently '{}'): ".format(ival[0]))
     if left:
         ival[0] = float(left)
     right = input("right [µm] (currently '{}'): ".format(ival[1]))
-    if left:
+    if right:
         ival[1] = float(right)
     pf["range_x"] = list(ival*1e-6)
 
